@@ -481,6 +481,7 @@ func main() {
 		}
 	}
 	r := ev.New("C10", "exploration")
+	concurrentPart(r) // E3 part (in a shard worker process this runs its share and exits)
 	nIDs := ev.Pick(r, 1<<16, 1<<16)
 	makeIDs(nIDs)
 	dense := uint64(ev.Pick(r, 4096, 8192))
